@@ -505,12 +505,12 @@ def run_shape_groups(ctx, shim, groups, stream, what):
                 dist["kern_off"] += 1
                 if meta[2] in ("r", "b"): dist["backward+kern_off"] += 1
             for kind, detail in check_shape(meta, gl):
-                key = (kind, "kern=0" if meta[4] else "kern", meta[2] in ("r", "b")) if stream == "shape-clusters" else (kind, f"level {meta[3]}", shaper_class(q))
+                key = (kind, "kern=0" if meta[4] else "kern", meta[2] in ("r", "b"), shaper_class(q)) if stream == "shape-clusters" else (kind, f"level {meta[3]}", shaper_class(q))
                 found.setdefault(key, []).append((len(q), reg, q, meta, rep, detail))
     for key, lst in sorted(found.items(), key=lambda kv: str(kv[0])):
         lst.sort(key=lambda x: x[0])
         _, reg, q, meta, rep, detail = lst[0]
-        ctx.violation(f"shape(): output clusters violate C02 ({key[0]}, {key[1]}, {(('backward' if key[2] else 'forward/guessed') + ' direction') if stream == 'shape-clusters' else stream + ' ' + str(key[2])}; "
+        ctx.violation(f"shape(): output clusters violate C02 ({key[0]}, {key[1]}, {(('backward' if key[2] else 'forward/guessed') + ' direction, ' + key[3]) if stream == 'shape-clusters' else stream + ' ' + str(key[2])}; "
                       f"{len(lst)} shapings, {len(set(x[1] for x in lst))} fonts): {detail}; input clusters {meta[1]}, "
                       f"output clusters {[g[1] for g in parse_shape(rep)]}",
                       {"stage": "search", "stream": stream, "font_line": reg, "request": q, "case": meta[0],
